@@ -145,9 +145,21 @@ package transport
 //@   callsite getQueueC: [C05:routed-by-its-own-id] arg0 == c && gR != nil && arg1 == gR.ID
 //@   callsite send: [C05:delivered-to-the-waiter-of-that-id-only] arg0 == gCh && arg1 == gR && nDisp == 0
 //@   callsite ReleaseMsg: [C20:undelivered-reply-released-once] arg0 == gR && nDisp == 0
+// on a stream every reply is read through the ONE buffered reader of the connection (bytes read ahead - the next
+// pipelined replies - stay with it), on this connection's socket; a datagram is read from that socket itself
+//@   ghost nBR int = 0
+//@   ghost gBR *bufio.Reader = nil
+//@   ghost nRelBR int = 0
+//@   oncall NewBR1K?: nBR = nBR + 1
+//@   aftercall NewBR1K?: gBR = ret0
+//@   oncall ReleaseBR1K?: nRelBR = nRelBR + 1
+//@   callsite NewBR1K?: [C05:one-buffered-reader-on-this-connection] nBR == 0 && arg0 == c.c
+//@   callsite ReadMsgFromTCP?: [C05:every-reply-read-through-the-connections-reader] nBR == 1 && arg0 == gBR && nRelBR == 0
+//@   callsite ReadMsgFromUDP?: [C05:datagrams-read-from-this-connection] arg0 == c.c
+//@   callsite ReleaseBR1K?: [C20:gives-back-its-own-reader-once] arg0 == gBR && nRelBR == 0
 //@   loop 1:
 //@     modifies *
-//@     invariant c != nil && pcLive(c) && (isTCP ==> br != nil) && nDisp == 1 && nClose == 0
+//@     invariant c != nil && pcLive(c) && (isTCP ==> nBR == 1 && gBR != nil && nRelBR == 0) && nDisp == 1 && nClose == 0
 
 // closeWithErr: the first call marks the connection closed (inside one critical section), and then - outside the
 // lock - closes the socket exactly once; every later call does nothing.
